@@ -41,6 +41,7 @@ type Obligation struct {
 	Desc      string            `json:"desc"`
 	Sched     string            `json:"sched,omitempty"`
 	Select    bool              `json:"explore_select,omitempty"`
+	Unstub    []string          `json:"unstub,omitempty"`
 	LeakCheck bool              `json:"leak_check,omitempty"`
 	MapOrder  int               `json:"map_order_max,omitempty"`
 	Quick     Tier              `json:"quick"`
@@ -380,7 +381,7 @@ func cmdCheck(args []string) int {
 		}
 		for i := 0; i < n; i++ {
 			spec := symgo.RunSpec{RepoDir: repoDir(), HarnessDir: filepath.Join(verifDir(), "harness"), Pkg: o.Pkg, Fn: o.Fn, Params: params,
-				Sched: o.Sched, Preempt: tier.Preempt, Select: o.Select, LeakCheck: o.LeakCheck, Unwind: tier.Unwind, MaxPaths: tier.MaxPaths,
+				Sched: o.Sched, Preempt: tier.Preempt, Select: o.Select, Unstub: o.Unstub, LeakCheck: o.LeakCheck, Unwind: tier.Unwind, MaxPaths: tier.MaxPaths,
 				MaxSteps: tier.MaxSteps, MapOrder: o.MapOrder, TimeoutMs: qms, Redirects: o.Redirects, SampleEnds: nval, Solver: o.Solver, AbstractConv: o.AbstractConv, ExactFloat: o.ExactFloat, WithPkgs: o.WithPkgs}
 			if n > 1 {
 				spec.SplitN, spec.SplitI, spec.SplitDepth = n, i, tier.SplitDepth
